@@ -8,24 +8,25 @@ import (
 	"go/parser"
 	"go/types"
 	"sort"
+	"strconv"
 	"strings"
 
 	"golang.org/x/tools/go/ssa"
 )
 
 type FnReport struct {
-	Key        string
-	File       string
-	Line       int
-	Requires   []string
-	Domains    []string
-	NEnsures   int
-	NInvs      int
-	SSAInstrs  int
-	Blocks     int
-	Loops      int
-	Trusted    bool
-	Notes      []string
+	Key       string
+	File      string
+	Line      int
+	Requires  []string
+	Domains   []string
+	NEnsures  int
+	NInvs     int
+	SSAInstrs int
+	Blocks    int
+	Loops     int
+	Trusted   bool
+	Notes     []string
 }
 
 func (ex *Exec) initState() *State {
@@ -196,7 +197,7 @@ func (ex *Exec) frameObligations(ct *Contract, entry, out *State, pointees map[s
 // ---------- lemmas: (params) requires... ensures...
 
 type lemmaDecl struct {
-	params []struct{ name, typ string }
+	params            []struct{ name, typ string }
 	requires, ensures []string
 }
 
@@ -323,6 +324,17 @@ func (W *World) lookupType(fn *ssa.Function, name string) types.Type {
 	if strings.HasPrefix(name, "*") {
 		ptr = true
 		name = name[1:]
+	}
+	// array types [N]T (e.g. the [32]byte of a hash)
+	if strings.HasPrefix(name, "[") {
+		if end := strings.Index(name, "]"); end > 1 {
+			if n, err := strconv.ParseInt(name[1:end], 10, 64); err == nil {
+				if et := W.lookupType(fn, name[end+1:]); et != nil {
+					return types.NewArray(et, n)
+				}
+			}
+		}
+		return nil
 	}
 	var t types.Type
 	if i := strings.Index(name, "."); i >= 0 {
